@@ -8,6 +8,7 @@ package main
 import (
 	"bytes"
 	"encoding/csv"
+	"encoding/hex"
 	"encoding/json"
 	"fmt"
 	"os"
@@ -24,6 +25,10 @@ import (
 )
 
 var listFormats = []string{"txt", "json", "dot", "csv", "md"}
+
+// modelsExposure: the Lean model of the formatters covers the exposure sections too (false: bytes are compared for
+// runs without --exposure only)
+const modelsExposure = true
 var diffFormats = []string{"txt", "csv", "md", "dot"}
 
 type triple struct{ src, dst, conn string }
@@ -206,6 +211,20 @@ func execFmtCase(c *Sx, env *execEnv) (*Sx, []Violation) {
 		viols = append(viols, Violation{Prop: prop, Kind: kind, Detail: detail, Case: c.String()})
 	}
 	var panicked string
+	// K-diff on bytes (Model/Format.lean): (out FORMAT HEX|err) per list format, (dout FORMAT HEX|err) per diff format;
+	// HEX is the lowercase hex of the returned string, "-" for the empty string
+	var outs []*Sx
+	emit := func(head, format, s string, err error) {
+		if err != nil {
+			outs = append(outs, Ls(At(head), At(format), At("err")))
+			return
+		}
+		h := hex.EncodeToString([]byte(s))
+		if h == "" {
+			h = "-"
+		}
+		outs = append(outs, Ls(At(head), At(format), At(h)))
+	}
 	func() {
 		defer func() {
 			if e := recover(); e != nil {
@@ -224,6 +243,9 @@ func execFmtCase(c *Sx, env *execEnv) (*Sx, []Violation) {
 				}
 			}
 			env.count("fmt-list:" + f)
+			if modelsExposure || !exposure {
+				emit("out", f, l1.out, l1.err)
+			}
 			// C08: repeated runs are byte-identical
 			if (l1.err == nil) != (l2.err == nil) || l1.out != l2.out {
 				rep("C08", "nondeterministic-output", fmt.Sprintf("format %s exposure=%v: two runs on the same directory differ", f, exposure))
@@ -345,6 +367,7 @@ func execFmtCase(c *Sx, env *execEnv) (*Sx, []Violation) {
 					o2, e2, _ = mk()
 				}
 				env.count("fmt-diff:" + f)
+				emit("dout", f, o1, e1)
 				if (e1 == nil) != (e2 == nil) || o1 != o2 {
 					rep("C08", "nondeterministic-diff-output", fmt.Sprintf("diff format %s: two runs differ", f))
 				}
@@ -376,6 +399,9 @@ func execFmtCase(c *Sx, env *execEnv) (*Sx, []Violation) {
 		return out, viols
 	}
 	out.Add(At("done"))
+	for _, o := range outs {
+		out.Add(o)
+	}
 	return out, viols
 }
 
@@ -479,12 +505,36 @@ func checkDiffFormat(format, out string, cd diff.ConnectivityDiff) string {
 }
 
 func genFmtCase(r *Rng, id int, tier string) *Sx {
-	cfg := &genCfg{anp: r.P(30), banp: true, pods: true, ingress: r.P(35), icNs: true, twinPct: 25, namedOnIPPct: 0, maxNP: 4, maxWl: 5}
+	cfg := &genCfg{anp: r.P(30), banp: true, pods: true, ingress: r.P(35), icNs: true, icName: r.P(25), twinPct: 25, namedOnIPPct: 0, maxNP: 4, maxWl: 5}
 	exposure := r.P(40)
 	if exposure {
 		cfg.anp, cfg.banp = false, false
 	}
 	w := genWorld(r, cfg)
+	var b *World
+	if r.P(50) {
+		// a second world for the diff formats: an edited copy of the first, or (new and lost workloads on both sides,
+		// entries with two new peers) an independent world over the same name pools; in either order
+		if r.P(25) {
+			b = genWorld(r, cfg)
+		} else {
+			b = cloneWorld(w)
+			if r.P(40) {
+				for k := r.Range(1, 3); k > 0 && len(b.Objs) > 1; k-- {
+					j := r.Intn(len(b.Objs))
+					b.Objs = append(b.Objs[:j], b.Objs[j+1:]...)
+				}
+				b.Objs = append(b.Objs, Obj{Kind: "np", Np: genNetPol(r, cfg, "ns0", "extra")})
+			} else {
+				for i, n := 0, r.Range(1, 3); i < n; i++ {
+					editForDiff(r, cfg, b, i)
+				}
+			}
+		}
+		if r.P(35) {
+			w, b = b, w
+		}
+	}
 	c := Ls(At("wfmt"), Ai(int64(id)), w.Sx(), Ls(At("exposure"), At(b01(exposure))), Ls(At("stop"), At(b01(r.P(15)))))
 	if r.P(30) {
 		for _, o := range w.Objs {
@@ -494,20 +544,7 @@ func genFmtCase(r *Rng, id int, tier string) *Sx {
 			}
 		}
 	}
-	if r.P(50) {
-		// a second world for the diff formats
-		b := cloneWorld(w)
-		if r.P(40) {
-			if len(b.Objs) > 1 {
-				j := r.Intn(len(b.Objs))
-				b.Objs = append(b.Objs[:j], b.Objs[j+1:]...)
-			}
-			b.Objs = append(b.Objs, Obj{Kind: "np", Np: genNetPol(r, cfg, "ns0", "extra")})
-		} else {
-			for i, n := 0, r.Range(1, 3); i < n; i++ {
-				editForDiff(r, cfg, b, i)
-			}
-		}
+	if b != nil {
 		c.Add(b.Sx())
 	}
 	return c
